@@ -373,6 +373,38 @@ def keep_line(l):
     return l.startswith('rt_topo') or l.startswith('now ')
 
 
+def _net_premise(zones, line):
+    """statistics only: does the statement's connectivity premise hold for this rt_net line, and is the originator entitled?"""
+    toks = dict(t.split('=', 1) for t in line.split()[1:])
+    s0, tz = int(toks['s']), int(toks['tz'])
+    links = set()
+    if toks.get('links', '-') != '-':
+        for p in toks['links'].split('.'):
+            a, b = p.split('-'); links.add((int(a), int(b))); links.add((int(b), int(a)))
+    zone_of = {e: i for i, (p, g, eps) in enumerate(zones) for e in eps}
+    def anc(z):
+        r = []
+        while zones[z][0] is not None:
+            z = zones[z][0]; r.append(z)
+        return r
+    sz = zone_of[s0]
+    if zones[tz][1]:
+        ent = [z for z in range(len(zones)) if not zones[z][1] and (z == sz or sz in anc(z))]
+    else:
+        ent = [tz] + anc(tz)
+    if sz not in ent:
+        return 'originator-not-entitled'
+    for z in ent:
+        eps = zones[z][2]
+        if len(eps) == 2 and (eps[0], eps[1]) not in links:
+            return 'premise-fails'
+        for z2 in ent:
+            if zones[z][0] == z2 or zones[z2][0] == z:
+                if eps and not any((min(eps), e) in links for e in zones[z2][2]):
+                    return 'premise-fails'
+    return 'premise-holds'
+
+
 def extra_stats(cases, impl):
     c = collections.Counter()
     for cs in cases:
@@ -394,8 +426,19 @@ def extra_stats(cases, impl):
             c['net_deliveries'] += int(toks.get('deliv', '0'))
             c['net_endpoints_processed'] += len([x for x in toks.get('proc', '-').split('.') if x != '-'])
             c['net_runs_' + cs['tags'].get('family', '?')] += 1
+        zs = None
         for l in cs['lines']:
-            if l.startswith('rt_net') and 'mode=nextcheck' in l:
-                c['net_runs_through_real_SetNextCheck_handler'] += 1
+            if l.startswith('rt_topo'):
+                zs = []
+                for tok in l.split()[1:]:
+                    pp, gg, ee = tok.split('=', 1)[1].split(',')
+                    zs.append((None if pp == '-' else int(pp), gg == 'g', [] if ee == '-' else [int(x) for x in ee.split('.')]))
+            if l.startswith('rt_net'):
+                if 'mode=nextcheck' in l:
+                    c['net_runs_through_real_SetNextCheck_handler'] += 1
+                try:
+                    c['net_runs_' + _net_premise(zs, l)] += 1
+                except Exception:
+                    c['net_runs_premise_unknown'] += 1
     c['reloads'] = _count(cases, 'rt_reload')
     return dict(c)
